@@ -217,7 +217,7 @@ func init() {
 	RegisterProbe("c07-sub-dir-errpath", c07Probe(3, "a", Op{Kind: "MkdirAll", P: "c", Perm: 0755}))
 	Register(&Engine{
 		Prop: "C07", Name: "fsdiff/sub-twin", Run: runC07,
-		Trials: map[string]int{"quick": 3000, "thorough": 150000},
+		Trials: map[string]int{"quick": 30000, "thorough": 300000},
 		Rule:   "two identical instances A and B of a drawn FS kind (mem; mount.FS with mounts m and m/n; os.FS on scratch directories; an FS exposing only Open; a Sub view of mem for nesting) are driven by the same history (2-19 steps); view steps apply op(Sub(A,dir),name) and op(B,dir/name) for dir drawn from existing/missing directories incl. '.', mount points, above and below mount points; outcome class, data, error type and error path (view-relative) and the full snapshots of A and B are compared after every step; non-trivial = at least one view step; distinct = event-log hash",
 		Components: map[string][]string{
 			"real": {"hackpadfs.Sub dispatch", "sub.go", "mount.go error path translation", "os.FS native Sub", "mount.FS", "mem.FS"},
